@@ -305,6 +305,16 @@ pub fn gen_c08(tier: &str, seed: u64, out: &str, mc: Option<&str>) -> Value {
         if !anti { n_over += 1; }
         t.cut();
     }
+    // one element repeated 255 / 256 / 257 / 513 times next to a few others
+    for k in [255usize, 256, 257, 513] {
+        let base = random_antichain(&mut rng, 20);
+        if base.is_empty() { continue; }
+        let mut l = base.clone();
+        l.extend(vec![base[0]; k]);
+        t.emit(compact8_event(&l, &mut rng, 3, 0));
+        n += 1;
+        t.cut();
+    }
     for l in fixture_lists() {
         t.emit(compact8_event(&l, &mut rng, 3, cap));
         n += 1;
